@@ -4209,7 +4209,7 @@ fn get_arg_type(s: &str, quoted: bool) -> ArgType {
                 return ArgType::List;
             }
         }
-        if !c.is_ascii_digit() {
+        if !c.is_ascii_digit() && c != '.' {
             if c != '-' || prevc != None {
                 numeric = false;
             }
@@ -4222,7 +4222,7 @@ fn get_arg_type(s: &str, quoted: bool) -> ArgType {
         }
         prevc = Some(c)
     }
-    if numeric {
+    if numeric && s.chars().any(|c| c.is_ascii_digit()) && !s.ends_with('.') {
         if foundperiod {
             ArgType::Float
         } else {
